@@ -1,7 +1,9 @@
 #!/bin/bash
-# confirms every not-yet-confirmed seeded change found in /tmp/seed/out-C*/ (sequentially; slow)
-for d in /tmp/seed/out-C*; do id=$(basename $d | sed 's/out-//'); for x in A B; do
+# confirms every not-yet-confirmed seeded change found in /tmp/seed/out-C*/ (SEED_ROUND=2: /tmp/seed/out2-C*/), sequentially
+round="${SEED_ROUND:-1}"; pre=out; [ "$round" = 2 ] && pre=out2
+for d in /tmp/seed/$pre-C*; do id=$(basename $d | sed "s/$pre-//"); for x in A B; do
   [ -f $d/$x.patch.diff ] || continue
-  [ -d /verif/seeded/$id-$x ] && continue
+  v=$x; if [ "$round" = 2 ]; then [ $x = A ] && v=C; [ $x = B ] && v=D; fi
+  [ -d /verif/seeded/$id-$v ] && continue
   /verif/seed_confirm.sh $id $x 2>&1 | tail -2
 done; done
